@@ -150,7 +150,7 @@ def _run(case, root):
         res = run_cond(root, graph.argv_for(c2), kspec=kspec)
         spawns = {e["task"]: e for e in res["events"] if e["e"] == "spawn"}
         err = res["stderr"].decode("utf-8", "replace")
-        if res.get("uncaught") or res["status"] == "deadlock":
+        if res.get("uncaught") or res["status"] in ("deadlock", "livelock"):
             v.append(("run_broke", "invocation %d: %s" % (r, (res.get("uncaught_tb") or str(res["status"]))[-300:])))
             break
         # the directory each direct dep contributes in this invocation
